@@ -6,6 +6,7 @@ T13-ORD    the font-supplied clamp bounds in default_normalize are ordered befor
 T13-DIV    Fixed / F2Dot14 division guards a zero divisor (rule C01-d on src/tables.rs)
 T13-PRIV   a Tuple/OwnedTuple cannot be forged at the wrong length by safe code (field privacy)
 """
+from fractions import Fraction
 import re
 
 import arith
@@ -461,6 +462,45 @@ def t13_len2(run, fx):
                  "accepted (truncated or padded) instead of rejected", "%s:%s" % (b.file, b.line))
 
 
+# ---- T13-NORM: default normalisation as a whole ------------------------------------------------------------------------------------
+def _norm_spec(coord, minv, default, maxv):
+    """OpenType Font Variations overview, "Coordinate scales and normalization": clamp to [min, max]; below the default
+    -(default - coord) / (default - min), above it (coord - default) / (max - default), 0 at the default; then clamp to [-1, 1]"""
+    c = min(max(coord, minv), maxv)
+    if c < default:
+        v = -(default - c) / (default - minv)
+    elif c > default:
+        v = (c - default) / (maxv - default)
+    else:
+        v = Fraction(0)
+    return min(max(v, Fraction(-1)), Fraction(1))
+
+
+def t13_norm(run, fx):
+    import fnread
+    rule = "T13-NORM"
+    run.rule(rule, "default normalisation (fvar): default_normalize, read as a decision list over (coord, minValue, defaultValue, maxValue) - the "
+                   "comparisons of every path and its result formula, evaluated in exact rational arithmetic - equals the specification's function "
+                   "for every assignment of a grid of seven values per parameter (-2 .. 2; all orderings and ties, values outside the axis range, "
+                   "degenerate axes with min = default or default = max) on well-formed axes (min <= default <= max)")
+    b = fx.body("tables::variable_fonts::fvar::default_normalize")
+    if b is None:
+        return run.anchor_missing(rule, "fvar::default_normalize")
+    grid = [Fraction(k, 2) for k in (-4, -2, -1, 0, 1, 2, 4)]
+    places = {"minv": "(*axis).min_value", "default": "(*axis).default_value", "maxv": "(*axis).max_value"}
+    try:
+        cnt, bad = fnread.compare(b, ["coord", "minv", "default", "maxv"], grid, _norm_spec, lambda coord, minv, default, maxv: minv <= default <= maxv, places=places)
+    except fnread.Undecided as e:
+        return run.fail(rule, "norm-shape", "default_normalize is no longer a decision list over the coordinate and the three axis values that this rule can read (%s): "
+                        "the normalisation is not decided" % e, "%s:%s" % (b.file, b.line))
+    if bad:
+        a, got, want = bad[0]
+        run.fail(rule, "norm", "default_normalize differs from the specification's default normalisation, e.g. for coord=%s on an axis min=%s default=%s max=%s it yields %s, "
+                 "the specification %s" % (a["coord"], a["minv"], a["default"], a["maxv"], got, want), "%s:%s" % (b.file, b.line))
+    else:
+        run.ok(rule, "default_normalize equals the specification on %d assignments" % cnt)
+
+
 def check(run, fx, tier, floors=True):
     import ignored
     ignored.run_for(run, fx, 'C13', floors)
@@ -478,6 +518,7 @@ def check(run, fx, tier, floors=True):
     t13_len(run, fx)
     if floors or fx.body("tables::variable_fonts::fvar::default_normalize") is not None:
         t13_zero(run, fx)
+        t13_norm(run, fx)
     t13_clamp(run, fx)
     t13_ord(run, fx)
     t13_priv(run, fx)
